@@ -685,6 +685,10 @@ class Interp:
                 return ctx.memo[key]
             raise PyRaise("AttributeError", [VStr(smt.sstr(f"no attribute '{name}'"))])
         if isinstance(v, (VNone, VBool, VInt, VFloat, VStr, VTuple, VList, VNotImpl)):
+            real = {"none": type(None), "bool": bool, "int": int, "float": float, "str": str, "tuple": tuple, "list": list, "notimpl": type(NotImplemented)}[v.kind]
+            if hasattr(real, name):
+                # the attribute exists in Python: a method this interpreter may or may not model, never an AttributeError
+                return VExternal(f"{v.kind}.{name}", bound=v)
             raise PyRaise("AttributeError", [VStr(smt.sstr(f"'{v.kind}' object has no attribute '{name}'"))])
         raise Unsupported(f"getattr {v}.{name}")
 
@@ -906,6 +910,18 @@ class Interp:
             return Eq(a.cid, b.cid)
         if type(a) is not type(b):
             return FALSE
+        if isinstance(a, (VInt, VFloat, VStr)):
+            # identity of numbers and strings is not determined by their values: two equal ints parsed from JSON are two objects (CPython only
+            # caches -5..256 and interned strings, and the language promises neither).  Sound reading: `a is b` is an unconstrained Boolean
+            # that can only be true when the values are equal.
+            idn = ctx.fresh("same_object", "Bool")
+            ctx.assume(smt.Implies(idn, Eq(a.t, b.t)))
+            return idn
+        if isinstance(a, (VTuple, VList)):
+            idn = ctx.fresh("same_object", "Bool")
+            if len(a.items) != len(b.items):
+                return FALSE
+            return idn
         raise Unsupported(f"is {a} {b}")
 
     def op_in(self, ctx: Ctx, x: V, coll: V) -> V:
@@ -944,6 +960,18 @@ class Interp:
             return self.call_function(ctx, f.qualname, a, kwargs)
         if isinstance(f, VExcClass):
             return VExc(f.name, args)
+        if isinstance(f, VExternal) and isinstance(f.bound, VList) and f.dotted in ("list.append", "list.extend") and len(args) == 1 and not kwargs:
+            # in-place growth of a list the function built itself (a display or a list it grew before); every holder of the same list sees it
+            if id(f.bound) not in ctx.ghost.get("own_lists", {}):
+                raise Unsupported("in-place growth of a list that was not built on this path")
+            if f.dotted == "list.append":
+                f.bound.items.append(args[0])
+                return VNone()
+            more = force(ctx, args[0])
+            if isinstance(more, (VList, VTuple)):
+                f.bound.items.extend(more.items)
+                return VNone()
+            raise Unsupported("list.extend with a symbolic iterable")
         if isinstance(f, VExternal):
             allargs = ([f.bound] if f.bound is not None else []) + [force(ctx, a) for a in args]
             if (f.dotted in PURE_STR_FUNCS or (f.dotted.startswith("str.") and f.bound is not None)) and not kwargs and allargs and all(isinstance(a, VStr) for a in allargs):
@@ -1233,7 +1261,69 @@ class Interp:
         hook = getattr(self, "stmt_hook", None)
         if hook is not None and hook(ctx, s, env, fi):
             return
+        if isinstance(s, ast.Try):
+            return self.exec_try(ctx, s, env, fi)
         raise Unsupported(f"statement {type(s).__name__}")
+
+    def exec_try(self, ctx: Ctx, s: ast.Try, env: Dict[str, V], fi: FunctionInfo):
+        """try / except / else / finally with CPython's semantics: a handler is chosen by the class of the raised exception (first match in
+        source order, builtin hierarchy), `else` runs when the body completed, `finally` always runs and whatever it raises or returns
+        replaces a pending raise / return.  (The interpreter's own control signals - Unsupported, Infeasible - are never caught.)"""
+        pending: Optional[BaseException] = None
+        try:
+            try:
+                self.exec_block(ctx, s.body, env, fi)
+            except PyRaise as pr:
+                h = self._matching_handler(s.handlers, pr.exc)
+                if h is None:
+                    raise
+                if h.name:
+                    env[h.name] = VExc(pr.exc, list(pr.args_v))
+                self.exec_block(ctx, h.body, env, fi)
+            else:
+                self.exec_block(ctx, s.orelse, env, fi)
+        except (PyRaise, _Return) as sig:
+            pending = sig
+        if s.finalbody:
+            self.exec_block(ctx, s.finalbody, env, fi)
+        if pending is not None:
+            raise pending
+
+    @staticmethod
+    def _matching_handler(handlers: List[ast.ExceptHandler], exc: str) -> Optional[ast.ExceptHandler]:
+        import builtins
+
+        def names(t: Optional[ast.expr]) -> Optional[List[str]]:
+            if t is None:
+                return ["BaseException"]
+            if isinstance(t, ast.Name):
+                return [t.id]
+            if isinstance(t, ast.Attribute):
+                return [t.attr]
+            if isinstance(t, ast.Tuple):
+                out: List[str] = []
+                for e in t.elts:
+                    n = names(e)
+                    if n is None:
+                        return None
+                    out += n
+                return out
+            return None
+
+        raised = getattr(builtins, exc, None)
+        for h in handlers:
+            ns = names(h.type)
+            if ns is None:
+                raise Unsupported("except clause with a computed exception class")
+            for n in ns:
+                if n == exc:
+                    return h
+                caught = getattr(builtins, n, None)
+                if isinstance(raised, type) and isinstance(caught, type) and issubclass(raised, caught):
+                    return h
+                if not isinstance(raised, type) and n in ("Exception", "BaseException"):
+                    return h  # a library exception class: assumed to derive from Exception
+        return None
 
     def assign(self, ctx: Ctx, target: ast.expr, v: V, env: Dict[str, V], fi: FunctionInfo):
         if isinstance(target, ast.Name):
@@ -1373,7 +1463,9 @@ class Interp:
         if isinstance(e, ast.Tuple):
             return VTuple([self.eval(ctx, x, env, fi) for x in e.elts])
         if isinstance(e, ast.List):
-            return VList([self.eval(ctx, x, env, fi) for x in e.elts])
+            lst = VList([self.eval(ctx, x, env, fi) for x in e.elts])
+            ctx.ghost.setdefault("own_lists", {})[id(lst)] = lst  # built on this path: may be grown in place (module constants may not)
+            return lst
         if isinstance(e, ast.Subscript):
             base = force(ctx, self.eval(ctx, e.value, env, fi))
             idx = force(ctx, self.eval(ctx, e.slice, env, fi))
